@@ -277,7 +277,7 @@ def apply_op(m, op):
     if k in ("fit", "partial_fit"):
         f = m.fit if k == "fit" else m.partial_fit
         d = np.asarray(op["d"])
-        r = np.asarray(op["r"], dtype=float)
+        r = np.asarray(op["r"], dtype=bool if op.get("r_dtype") == "bool" else float)
         if op.get("X") is not None:
             f(d, r, _arr(op["X"]))
         else:
